@@ -196,6 +196,10 @@ Section History.
     trace_from H K cf c (OObserve :: rest) = trace_from H K cf c rest.
   Proof. reflexivity. Qed.
 
+  Lemma trace_from_reset : forall c rest,
+    trace_from H K cf c (OReset :: rest) = trace_from H K cf c rest.
+  Proof. reflexivity. Qed.
+
   (* a cache entry was stored by an earlier uncached, exception-free request
      with this key, holds exactly that request's reply, stamped with its time *)
   Definition entry_ok (h : hist) (e : entry) : Prop :=
@@ -299,7 +303,7 @@ Section History.
   Proof.
     induction ops as [|o rest IH]; intros h c HI i qi ri Hn.
     - destruct i; discriminate.
-    - destruct o as [q| |].
+    - destruct o as [q| | |].
       + rewrite trace_from_req in *.
         destruct (step H K cf c q) as [c' rp] eqn:Hs. cbn [fst snd] in *.
         destruct (step_ok h c q c' rp HI Hs) as [Hj HI'].
@@ -312,6 +316,7 @@ Section History.
           replace (length h + 1 + i)%nat with (length h + S i)%nat in J by lia. exact J.
       + rewrite trace_from_clear in *. apply IH; [apply Inv_nil | exact Hn].
       + rewrite trace_from_observe in *. apply IH; [exact HI | exact Hn].
+      + rewrite trace_from_reset in *. apply IH; [exact HI | exact Hn].
   Qed.
 
   Lemma trace_justified :
@@ -325,12 +330,13 @@ Section History.
   Lemma trace_from_In : forall ops c q r, In (q, r) (trace_from H K cf c ops) -> In (OReq q) ops.
   Proof.
     induction ops as [|o rest IH]; intros c q r Hi; [destruct Hi|].
-    destruct o as [q0| |].
+    destruct o as [q0| | |].
     - rewrite trace_from_req in Hi. destruct Hi as [E|Hi].
       + inversion E; subst. left; reflexivity.
       + right. eapply IH; exact Hi.
     - rewrite trace_from_clear in Hi. right. eapply IH; exact Hi.
     - rewrite trace_from_observe in Hi. right. eapply IH; exact Hi.
+    - rewrite trace_from_reset in Hi. right. eapply IH; exact Hi.
   Qed.
 
   Lemma trace_In : forall ops i qi ri, nth_error (trace H K cf ops) i = Some (qi, ri) -> In (OReq qi) ops.
@@ -519,34 +525,217 @@ Section History.
     intros ops1 ops2. unfold trace, trace_from.
     rewrite !etrace_from_app, !reqs_of_app. reflexivity.
   Qed.
+
+  (* reset_circuit_breaker() does not touch cache or agents *)
+  Lemma reset_noop_proof :
+    forall ops1 ops2,
+      trace H K cf (ops1 ++ OReset :: ops2) = trace H K cf (ops1 ++ ops2).
+  Proof.
+    intros ops1 ops2. unfold trace, trace_from.
+    rewrite !etrace_from_app, !reqs_of_app. reflexivity.
+  Qed.
 End History.
+
+(* ---------------------------------------------------------------------- *)
+(* the circuit breaker only rejects                                         *)
+
+Section Breaker.
+  Variable H : str -> str.
+  Variable K : str -> str.
+  Variable cf : config.
+  Variable bc : bconfig.
+
+  (* one request: either rejected (the blocked CIRCUIT_OPEN reply; cache
+     untouched, nobody asked) or exactly [step] on the cache *)
+  Lemma bstep_cases :
+    forall c b q,
+      (exists b', bstep H K cf bc (c, b) q = ((c, b'), rejected_reply (length c), false)) \/
+      (exists b', bstep H K cf bc (c, b) q =
+                  ((fst (step H K cf c q), b'), snd (step H K cf c q), true)).
+  Proof.
+    intros c b q. unfold bstep.
+    destruct (if bc_enabled bc then check_circuit bc (q_time q) b else (true, b)) as [ok b1].
+    destruct ok.
+    - right. destruct (step H K cf c q) as [c' rp]. eexists. reflexivity.
+    - left. eexists. reflexivity.
+  Qed.
+
+  (* a rejection happens only with the breaker enabled *)
+  Lemma bstep_disabled :
+    bc_enabled bc = false ->
+    forall c b q, exists b', bstep H K cf bc (c, b) q =
+                  ((fst (step H K cf c q), b'), snd (step H K cf c q), true).
+  Proof.
+    intros Hd c b q. unfold bstep. rewrite Hd.
+    destruct (step H K cf c q) as [c' rp]. eexists. reflexivity.
+  Qed.
+
+  Definition is_rejection (e : bev) : Prop :=
+    exists q n, e = ((OReq q, Some (rejected_reply n), n), false).
+
+  (* every step of a breaker history: admitted and then the step of the
+     breaker-less loop on the same cache, or a rejection that leaves the cache alone *)
+  Lemma bstep_op_cases :
+    forall c b o,
+      (exists b', bstep_op H K cf bc (c, b) o = ((fst (step_op H K cf c o), b'), (snd (step_op H K cf c o), true))) \/
+      (exists b' e, bstep_op H K cf bc (c, b) o = ((c, b'), e) /\ is_rejection e).
+  Proof.
+    intros c b o. destruct o as [q| | |].
+    - cbn [bstep_op step_op].
+      destruct (bstep_cases c b q) as [[b' E] | [b' E]]; rewrite E.
+      + right. exists b'. eexists. split; [reflexivity|]. exists q, (length c). reflexivity.
+      + left. exists b'. destruct (step H K cf c q) as [c' rp]. reflexivity.
+    - left. exists b. reflexivity.
+    - left. exists b. reflexivity.
+    - left. eexists. reflexivity.
+  Qed.
+
+  (* the admitted steps of a breaker history ARE the history of the admitted
+     operations against the loop without a breaker *)
+  Lemma admitted_refines_from :
+    forall ops c b,
+      admitted_evs (betrace_from H K cf bc (c, b) ops) =
+      etrace_from H K cf c (admitted_from H K cf bc (c, b) ops).
+  Proof.
+    unfold admitted_evs.
+    induction ops as [|o rest IH]; intros c b; [reflexivity|].
+    cbn [betrace_from admitted_from].
+    destruct (bstep_op_cases c b o) as [[b' E] | (b' & e & E & (q & n & ->))]; rewrite E.
+    - cbn [snd fst filter map app etrace_from].
+      destruct (step_op H K cf c o) as [c' e']. cbn [fst snd]. rewrite IH. reflexivity.
+    - cbn [snd fst filter app]. apply IH.
+  Qed.
+
+  Lemma rejections_from :
+    forall ops c b e, In e (betrace_from H K cf bc (c, b) ops) -> snd e = false -> is_rejection e.
+  Proof.
+    induction ops as [|o rest IH]; intros c b e Hi Hs; [destruct Hi|].
+    cbn [betrace_from] in Hi.
+    destruct (bstep_op_cases c b o) as [[b' E] | (b' & e' & E & R)]; rewrite E in Hi.
+    - destruct Hi as [<- | Hi]; [discriminate Hs|]. eapply IH; eassumption.
+    - destruct Hi as [<- | Hi]; [exact R|]. eapply IH; eassumption.
+  Qed.
+
+  Lemma admitted_incl_from :
+    forall ops c b o, In o (admitted_from H K cf bc (c, b) ops) -> In o ops.
+  Proof.
+    induction ops as [|o' rest IH]; intros c b o Hi; [destruct Hi|].
+    cbn [admitted_from] in Hi.
+    destruct (bstep_op H K cf bc (c, b) o') as [[c' b'] e].
+    apply in_app_or in Hi. destruct Hi as [Hi | Hi].
+    - destruct (snd e); [destruct Hi as [<- | []]; left; reflexivity | destruct Hi].
+    - right. eapply IH; exact Hi.
+  Qed.
+
+  Lemma breaker_only_rejects_proof :
+    forall ops,
+      reqs_of (admitted_evs (betrace H K cf bc ops)) = trace H K cf (admitted H K cf bc ops) /\
+      (forall e, In e (betrace H K cf bc ops) -> snd e = false -> is_rejection e) /\
+      (forall o, In o (admitted H K cf bc ops) -> In o ops).
+  Proof.
+    intros ops. unfold betrace, admitted, trace, trace_from. split; [|split].
+    - rewrite admitted_refines_from. reflexivity.
+    - intros e. apply rejections_from.
+    - intros o. apply admitted_incl_from.
+  Qed.
+
+  (* every reply of a breaker history is the rejection or a reply of the
+     breaker-less loop to the admitted history *)
+  Lemma breaker_reply_proof :
+    forall ops q r n adm, In ((OReq q, Some r, n), adm) (betrace H K cf bc ops) ->
+      (adm = false /\ r = rejected_reply n) \/
+      (adm = true /\ exists i, nth_error (trace H K cf (admitted H K cf bc ops)) i = Some (q, r)).
+  Proof.
+    intros ops q r n adm Hi.
+    destruct (breaker_only_rejects_proof ops) as (A & B & _).
+    destruct adm.
+    - right. split; [reflexivity|]. apply In_nth_error. rewrite <- A.
+      unfold reqs_of, admitted_evs. apply in_flat_map.
+      exists (OReq q, Some r, n). split; [|left; reflexivity].
+      apply in_map_iff. exists ((OReq q, Some r, n), true). split; [reflexivity|].
+      apply filter_In. split; [exact Hi | reflexivity].
+    - left. split; [reflexivity|].
+      destruct (B _ Hi eq_refl) as (q' & n' & E). inversion E; subst. reflexivity.
+  Qed.
+
+  (* in particular: a not-blocked reply, and a reply with a token, is never the
+     breaker's own; it is a reply of the loop proper, to which the history
+     theorems apply *)
+  Lemma breaker_pass_only_if_proof :
+    forall ops q r n adm, In ((OReq q, Some r, n), adm) (betrace H K cf bc ops) ->
+      c_blocked (r_core r) = false \/ c_token (r_core r) <> None \/ r_cached r = true ->
+      adm = true /\
+      exists i, nth_error (trace H K cf (admitted H K cf bc ops)) i = Some (q, r) /\
+        (c_blocked (r_core r) = false ->
+         exists j qj rj,
+           (j <= i)%nat /\ nth_error (trace H K cf (admitted H K cf bc ops)) j = Some (qj, rj) /\
+           K (q_prompt qj) = K (q_prompt q) /\ r_cached rj = false /\
+           (r_cached r = false -> j = i) /\
+           spec_pass (cf_logic cf) (q_exec qj) (q_assess qj) = true).
+  Proof.
+    intros ops q r n adm Hi Hc.
+    destruct (breaker_reply_proof ops q r n adm Hi) as [[_ ->] | [-> [i Hn]]].
+    - exfalso. cbn in Hc. destruct Hc as [Hc | [Hc | Hc]]; [discriminate | apply Hc; reflexivity | discriminate].
+    - split; [reflexivity|]. exists i. split; [exact Hn|].
+      intros Hb. exact (history_pass_only_if_proof H K cf _ i q r Hn Hb).
+  Qed.
+
+  (* with the breaker disabled nothing is ever rejected *)
+  Lemma breaker_disabled_from :
+    bc_enabled bc = false ->
+    forall ops c b,
+      map fst (betrace_from H K cf bc (c, b) ops) = etrace_from H K cf c ops /\
+      forallb snd (betrace_from H K cf bc (c, b) ops) = true.
+  Proof.
+    intros Hd. induction ops as [|o rest IH]; intros c b; [split; reflexivity|].
+    cbn [betrace_from etrace_from].
+    assert (E : exists b', bstep_op H K cf bc (c, b) o =
+                           ((fst (step_op H K cf c o), b'), (snd (step_op H K cf c o), true))).
+    { destruct o as [q| | |]; try (eexists; reflexivity).
+      cbn [bstep_op step_op]. destruct (bstep_disabled Hd c b q) as [b' E]. rewrite E.
+      exists b'. destruct (step H K cf c q) as [c' rp]. reflexivity. }
+    destruct E as [b' E]. rewrite E.
+    destruct (step_op H K cf c o) as [c' e']. cbn [fst snd map forallb andb].
+    destruct (IH c' b') as [I1 I2]. rewrite I1, I2. split; reflexivity.
+  Qed.
+
+  Lemma breaker_disabled_proof :
+    bc_enabled bc = false ->
+    forall ops,
+      reqs_of (map fst (betrace H K cf bc ops)) = trace H K cf ops /\
+      forallb snd (betrace H K cf bc ops) = true.
+  Proof.
+    intros Hd ops. destruct (breaker_disabled_from Hd ops [] brk0) as [A B].
+    unfold betrace, trace, trace_from. split; [exact (f_equal reqs_of A) | exact B].
+  Qed.
+End Breaker.
 
 (* ---------------------------------------------------------------------- *)
 (* two loop objects do not influence each other                            *)
 
 Lemma loops_isolated_from :
-  forall (H K : str -> str) cf0 cf1 tops c0 c1 b,
-    proj b (sys_from H K cf0 cf1 c0 c1 tops) =
-    etrace_from H K (if b then cf1 else cf0) (if b then c1 else c0) (proj b tops).
+  forall (H K : str -> str) cf0 cf1 bc0 bc1 tops s0 s1 b,
+    proj b (sys_from H K cf0 cf1 bc0 bc1 s0 s1 tops) =
+    betrace_from H K (if b then cf1 else cf0) (if b then bc1 else bc0) (if b then s1 else s0) (proj b tops).
 Proof.
-  intros H K cf0 cf1. unfold proj.
-  induction tops as [|[t o] rest IH]; intros c0 c1 b; [reflexivity|].
+  intros H K cf0 cf1 bc0 bc1. unfold proj.
+  induction tops as [|[t o] rest IH]; intros s0 s1 b; [reflexivity|].
   cbn [sys_from]. destruct t.
-  - destruct (step_op H K cf1 c1 o) as [c1' e] eqn:Es.
+  - destruct (bstep_op H K cf1 bc1 s1 o) as [s1' e] eqn:Es.
     cbn [filter fst]. destruct b; cbn [Bool.eqb map snd].
-    + cbn [etrace_from]. rewrite Es. rewrite (IH c0 c1' true). reflexivity.
-    + rewrite (IH c0 c1' false). reflexivity.
-  - destruct (step_op H K cf0 c0 o) as [c0' e] eqn:Es.
+    + cbn [betrace_from]. rewrite Es. rewrite (IH s0 s1' true). reflexivity.
+    + rewrite (IH s0 s1' false). reflexivity.
+  - destruct (bstep_op H K cf0 bc0 s0 o) as [s0' e] eqn:Es.
     cbn [filter fst]. destruct b; cbn [Bool.eqb map snd].
-    + rewrite (IH c0' c1 true). reflexivity.
-    + cbn [etrace_from]. rewrite Es. rewrite (IH c0' c1 false). reflexivity.
+    + rewrite (IH s0' s1 true). reflexivity.
+    + cbn [betrace_from]. rewrite Es. rewrite (IH s0' s1 false). reflexivity.
 Qed.
 
 Lemma loops_isolated_proof :
-  forall (H K : str -> str) cf0 cf1 tops b,
-    reqs_of (proj b (sys_trace H K cf0 cf1 tops)) =
-    trace H K (if b then cf1 else cf0) (proj b tops).
+  forall (H K : str -> str) cf0 cf1 bc0 bc1 tops b,
+    proj b (sys_trace H K cf0 cf1 bc0 bc1 tops) =
+    betrace H K (if b then cf1 else cf0) (if b then bc1 else bc0) (proj b tops).
 Proof.
-  intros H K cf0 cf1 tops b. unfold sys_trace, trace, trace_from.
-  rewrite (loops_isolated_from H K cf0 cf1 tops [] [] b). destruct b; reflexivity.
+  intros H K cf0 cf1 bc0 bc1 tops b. unfold sys_trace, betrace.
+  rewrite (loops_isolated_from H K cf0 cf1 bc0 bc1 tops ([], brk0) ([], brk0) b). destruct b; reflexivity.
 Qed.
